@@ -278,9 +278,15 @@ def gen_small_re(rng, alpha=('a', 'b', 'c'), depth=2):
     return go(depth)
 
 
+NULLABLE_LA = False   # set by properties whose quantifier includes lookahead patterns that can match the empty string
+
+
 def gen_small_la(rng, alpha=('a', 'b', 'c')):
     r = rng.random()
     a = lambda: esc(rng.choice(alpha))
+    if NULLABLE_LA and rng.random() < 0.3:
+        return rng.choice([a() + '*', a() + '?', '(' + a() + '|' + a() + ')*', '(' + a() + a() + ')*', a() + '*(' + a() + a() + ')?', '',
+                           a() + '{0}', '(' + a() + '?)*'])
     if r < 0.4:
         return a()
     if r < 0.6:
@@ -330,8 +336,8 @@ def add_transitions(rng, modes):
     nmodes = len(modes)
     for m in modes:
         toks = sorted(set(p['t'] for p in m['patterns']))
-        cand = sorted(set(toks + rng.sample(range(0, 14), rng.randint(0, 2))))
-        k = rng.randint(0, min(3, len(cand)))
+        cand = sorted(set(toks + rng.sample(range(0, 14), rng.randint(0, 4))))
+        k = rng.randint(0, len(cand)) if rng.random() < 0.5 else rng.randint(0, min(3, len(cand)))
         chosen = sorted(rng.sample(cand, k))
         m['transitions'] = [[t, rng.randrange(nmodes)] for t in chosen]
     return modes
